@@ -143,6 +143,22 @@ func (rt *Runtime) buildUnder(w *World, cfg string, format string, e *Env07) c07
 	return out
 }
 
+var unshareState int // 0 unknown, 1 works, 2 does not
+
+// unshareWorks: a private UTS namespace needs privileges the sandbox may not
+// grant; probe once, fall back to the host's own name.
+func unshareWorks() bool {
+	if unshareState == 0 {
+		unshareState = 2
+		if p, err := exec.LookPath("unshare"); err == nil {
+			if exec.Command(p, "--uts", "/bin/sh", "-c", "hostname verif-probe").Run() == nil {
+				unshareState = 1
+			}
+		}
+	}
+	return unshareState == 1
+}
+
 // envNoise: ambient variables that have nothing to do with packaging.
 var envNoise = [][][2]string{
 	{},
@@ -204,7 +220,7 @@ func (rt *Runtime) buildChild(w *World, format string, e *Env07, tag string) c07
 	args := []string{"-c", script, cli, "package", "-f", cfgPath, "-p", format, "-t", target}
 	cmd := exec.Command("/bin/sh", args...)
 	if e.Hostname != "" {
-		if _, err := exec.LookPath("unshare"); err == nil {
+		if unshareWorks() {
 			script = fmt.Sprintf("hostname %s 2>/dev/null; umask %04o; exec \"$0\" \"$@\"", e.Hostname, e.Umask)
 			cmd = exec.Command("unshare", append([]string{"--uts", "/bin/sh", "-c", script}, args[2:]...)...)
 		}
